@@ -285,14 +285,41 @@ def seed():
         return 1
 
 
+def stratum(sc):
+    """configuration stratum of a scenario: controller configuration x shape of the hook programmes"""
+    try:
+        hooks = {h: [p.get("prog"), sorted(k for k in p if k not in ("children", "related", "body", "status"))]
+                 for h, p in (sc.get("hook") or {}).items() if isinstance(p, dict)}
+        return json.dumps([sc.get("cfg"), hooks], sort_keys=True, default=str)
+    except Exception:
+        return ""
+
+
 def sample(items, k, rng, core=()):
-    """core items always, plus a seed-chosen slice up to k in total."""
+    """core items always, plus a seed-chosen slice up to k in total, STRATIFIED: the slice is taken round-robin over the
+    configuration strata (seed-shuffled within and across strata), so that rare configurations (say: cluster-scoped
+    parent x server-side apply) are represented in every run instead of once in a while."""
     if len(items) <= k:
         return list(items)
     core = list(core)
     rest = [x for x in items if x not in core]
     rng.shuffle(rest)
-    return core + rest[:max(0, k - len(core))]
+    groups = {}
+    for x in rest:
+        groups.setdefault(stratum(x) if isinstance(x, dict) else "", []).append(x)
+    keys = sorted(groups)
+    rng.shuffle(keys)
+    out, need = [], max(0, k - len(core))
+    while len(out) < need and keys:
+        nxt = []
+        for key in keys:
+            g = groups[key]
+            if g and len(out) < need:
+                out.append(g.pop())
+            if g:
+                nxt.append(key)
+        keys = nxt
+    return core + out
 
 
 def write_evidence(prop, tier, level, coverage, wall, violations, assumptions):
